@@ -41,7 +41,7 @@ def cases(tier, seed):
     # between), read back at every master location
     from .. import gen
 
-    for k in range(6 if tier == "quick" else 80):
+    for k in range(10 if tier == "quick" else 80):
         out.append({"cid": f"c06-{seed}-v{k}", "var": True, "lib": rng.choice(["ufoLib2", "defcon"]),
                     "fam": gen.rich_family(rng, n_masters=3 if k % 3 else 2), "flavor": rng.choice(["tt", "cff2"]),
                     "varFeatures": True, "prodNames": False})
